@@ -214,7 +214,7 @@ def run(check, an: Analysis):
         recv_text = ast.unparse(node.func.value) if isinstance(node.func, ast.Attribute) \
             else '?'
         amount = ast.unparse(node.args[0]) if node.args else '?'
-        construct = '%s:debit(%s, %s)' % (short(fn.qn), recv_text, amount)
+        construct = '%s:debit(%s, %s)' % (short(rules.public_name(an, fn)), recv_text, amount)
         owner = an.p.enclosing_self_class(fn)
         callee = Callee(fn, owner.qn if owner else None)
         # dispatching the coroutine to the loop is a compensation, checked by rule W/G
